@@ -557,6 +557,99 @@ def sincos(L):
     return _trig_pair(L)
 
 
+def denominators(e, _seen=None):
+    """The quantities whose vanishing makes the expression undefined: P for every inv[P] that occurs, the atom itself for a
+    negative power of a plain / function atom, the radicand for a negative power of a square root - also inside the
+    definitions of the atoms that occur (arguments of functions, radicands, inverted polynomials)."""
+    if _seen is None:
+        _seen = {}
+    e = e.norm() if e.has_defined() else e
+    out = []
+    for m in e.t:
+        for v, k in m:
+            kind = CTX.kind[v]
+            if (v, k < 0) in _seen:
+                continue
+            _seen[(v, k < 0)] = True
+            if kind[0] == 'inv':
+                if k > 0:
+                    out.append(kind[1])
+                out.extend(denominators(kind[1], _seen))
+            elif kind[0] == 'sqrt':
+                if k < 0:
+                    out.append(kind[1])
+                out.extend(denominators(kind[1], _seen))
+            elif kind[0] == 'fn':
+                if k < 0:
+                    out.append(El.a(v))
+                for a_ in kind[2]:
+                    if isinstance(a_, El):
+                        out.extend(denominators(a_, _seen))
+            elif k < 0:
+                out.append(El.a(v))
+    return out
+
+
+def _positive_definite(p):
+    """a sum of even powers with positive coefficients plus a positive constant (1 + x^2): never zero over the reals"""
+    p = p.norm() if p.has_defined() else p
+    const = p.t.get((), 0)
+    if const <= 0:
+        return False
+    for m, c in p.t.items():
+        if m == ():
+            continue
+        if c < 0:
+            return False
+        for v, e in m:
+            if e % 2 != 0 and not _positive_atom(v):
+                return False
+    return True
+
+
+def uncovered_denominators(found, expected, nonzero=()):
+    """Denominators of `found` that are not accounted for: not a non-zero constant, not positive definite, not (a factor of
+    a product of) the denominators of `expected` - where the specified value itself is undefined - and not (a factor of) a
+    quantity established non-zero on the path.  A non-empty answer means the code divides by something that can vanish at
+    a point where the specification has a value, however the two agree as rational functions."""
+    df = denominators(found)
+    if not df:
+        return []
+    de = denominators(expected) + [n for n in nonzero]
+    de = [d.norm() if d.has_defined() else d for d in de]
+    de = [d for d in de if not d.zero()]
+    out = []
+    for d in df:
+        d = d.norm() if d.has_defined() else d
+        if d.zero():
+            out.append(d)
+            continue
+        if not any(m != () for m in d.t):
+            continue                          # a non-zero constant
+        if _positive_definite(d):
+            continue
+        ok = False
+        for e_ in de:
+            try:
+                if eq(d * El.c(e_.t[lead(e_)]), e_ * El.c(d.t[lead(d)])):
+                    ok = True
+                    break
+            except Exception:
+                pass
+        if not ok and de and is_poly(d):
+            prod = ONE
+            for e_ in de:
+                if is_poly(e_):
+                    prod = prod * e_
+            try:
+                ok = (not prod.zero()) and any(m != () for m in prod.t) and (in_ideal(prod, [d]) or in_ideal(prod * prod, [d]))
+            except Exception:
+                ok = False
+        if not ok:
+            out.append(d)
+    return out
+
+
 def in_ideal(D, gens, max_cols=2500):
     """Is D = sum g_i * gens_i for polynomials g_i with deg(g_i) <= deg(D) - deg(gens_i)?  Decided by linear algebra over Q
     (the unknowns are the coefficients of the g_i).  All atoms - plain, defined or function symbols - are indeterminates,
